@@ -113,6 +113,23 @@ func (w *World) CheckIssued(fail Fail) int {
 			} else {
 				w.checkManaged("derive-by-path", is, md, fail)
 			}
+			// (2b) the cached private-key derivation (twice: computed, then from the cache;
+			// the addresses of both branches with the same index follow each other)
+			if !w.Locked && !w.Watching && !am.WatchOnly {
+				_, ref, _, _ := w.RefAddress(is)
+				for round := 0; round < 2; round++ {
+					k, err := sm.DeriveFromKeyPathCache(path)
+					evals++
+					if err != nil {
+						fail("derive-cache-failed", fmt.Sprintf("DeriveFromKeyPathCache(%+v) on an unlocked manager: %v", path, err))
+						break
+					}
+					if !k.PubKey().IsEqual(ref.Pub) {
+						fail("derive-cache:wrong-key", fmt.Sprintf("DeriveFromKeyPathCache(%+v) (call %d) returned the key of %x, the address's public key is %x", path, round+1, k.PubKey().SerializeCompressed(), ref.Pub.SerializeCompressed()))
+						break
+					}
+				}
+			}
 			// (3) root manager lookup
 			mr, err := w.Mgr.Address(ns, addr)
 			evals++
